@@ -63,10 +63,12 @@ func BuildWorlds(cfg Config, prop string, nFix, nSyn, rejectPct int, rich bool, 
 			case 1:
 				opts.Nested = true
 				opts.NoSiblings = true
+				opts.Big = 2
 			case 2:
 				opts.SetupName = "user.gorm.go"
 				opts.DotGoDir = true
 				opts.Competing = true
+				opts.Big = 1
 			case 3:
 				opts.SetupName = "catalog.go"
 				opts.Competing = true
